@@ -162,8 +162,24 @@ func init() {
 						}
 					case 1:
 						how = "remote-write"
+						// an update reported as failed leaves the stored data exactly as it was (seed C11-g);
+						// filter-less writes are not judged here (known findings of C04)
+						before := CanonAny(srv.F.DataCopy(info.Fn))
 						ctr := p.SendCmd(pCli.Address(), srv.Address(), model.CmdClassifierTypeWrite, util.Ptr(true), u.cmdFor(info), "write:"+u.shape)
 						p.Await(ctr)
+						simrt.WaitUntil("conn-idle", func() bool { return len(p.Conn.Queue) == 0 && !p.Conn.Handling })
+						refused := false
+						for _, s := range p.Responses(ctr) {
+							if isRes, e := IsResult(s); isRes && e != 0 {
+								refused = true
+							}
+						}
+						if refused {
+							w.Probe("c11-refused-write-checked")
+							if after := CanonAny(srv.F.DataCopy(info.Fn)); after != before && (u.fp != nil || u.fd != nil) {
+								w.Violate("C11/failed-update-changed-stored-data/"+u.shape, "the remote write (%s) was answered with an error result and changed the stored data\nfrom %s\nto   %s", u.shape, before, after)
+							}
+						}
 					case 2, 3:
 						how = "peer-notify-or-reply"
 						cl := model2Classifier(w)
